@@ -1,13 +1,23 @@
 (* C20 — The prefork master keeps the worker pool within its bounds.
-   Only statements, closed by [exact], and their assumptions. *)
+   Only statements, closed by [exact], and their assumptions.
+   Model: coq/model/PM.v (event-level transition system of pkg/server/pm_server.go, REPAIRED
+   bookkeeping [step]; the pinned bookkeeping [step_pinned] is kept for the refutation).
+   Every theorem quantifies over ALL configurations with 0 <= init <= max (any batch increment)
+   and ALL valid event traces (any order of process starts, registrations, FIFO report
+   deliveries incl. stray frames, exit notices, accepts, completions, timeouts, crashes). *)
 From Coq Require Import List ZArith Bool.
 Import ListNotations.
 From Zn.model Require Import PM.
 From Zn.proofs Require Import PMProofs.
 Open Scope Z_scope.
 
-(* For every configuration 0 <= init <= max (any batch increment) and every valid event trace,
-   the number of live worker processes never exceeds --max-procs. *)
+(* The accounting invariant (refCount = |childs| + reserved, init <= refCount <= max, every live
+   process is registered or in flight, ...) holds in every reachable state. *)
+Theorem C20_invariant : forall c tr s, cfg_ok c -> run c (init_state c) tr = Some s -> inv c s.
+Proof. exact reach_inv. Qed.
+Print Assumptions C20_invariant.
+
+(* The number of live worker processes never exceeds --max-procs. *)
 Theorem C20_live_le_max : forall c tr s, cfg_ok c -> run c (init_state c) tr = Some s -> live s <= c_max c.
 Proof. exact live_le_max. Qed.
 Print Assumptions C20_live_le_max.
@@ -17,3 +27,78 @@ Theorem C20_quiescent_ge_init : forall c tr s, cfg_ok c -> run c (init_state c) 
   quiescent s -> c_init c <= live s.
 Proof. exact quiescent_ge_init. Qed.
 Print Assumptions C20_quiescent_ge_init.
+
+(* A worker whose request outlives --timeout: it was serving a request; its termination leaves the
+   state of every other worker (and so the request it serves) untouched; it is gone and never
+   comes back; whatever happens next the pool stays <= max and is back to >= init when quiet. *)
+Theorem C20_timeout_replaced : forall c tr1 tr2 p s1 s1' s2, cfg_ok c ->
+  run c (init_state c) tr1 = Some s1 -> step c s1 (WTimeout p) = Some s1' -> run c s1' tr2 = Some s2 ->
+  (exists r, In (p, WServing r) (running s1)) /\
+  (forall q w, q <> p -> In (q, w) (running s1) -> In (q, w) (running s1')) /\
+  ~ In p (keys (running s1')) /\ In p (exited s1') /\
+  ~ In p (keys (running s2)) /\
+  live s2 <= c_max c /\
+  (quiescent s2 -> c_init c <= live s2).
+Proof. exact timeout_replaced. Qed.
+Print Assumptions C20_timeout_replaced.
+
+(* No event of the master or of another worker changes what a worker is doing. *)
+Theorem C20_undisturbed : forall c s e s' q w, NoDup (keys (running s)) ->
+  ev_worker e <> Some q -> step c s e = Some s' -> In (q, w) (running s) -> In (q, w) (running s').
+Proof. exact undisturbed. Qed.
+Print Assumptions C20_undisturbed.
+
+(* Each worker is in one state (serves at most one request at a time); a request is accepted by one
+   worker, answered at most once and only by its acceptor; two workers never serve the same request;
+   a request being served was accepted by that worker and has not been answered yet. *)
+Theorem C20_worker_one_at_a_time : forall c tr s, cfg_ok c -> run c (init_state c) tr = Some s ->
+  (forall p w w', In (p, w) (running s) -> In (p, w') (running s) -> w = w') /\
+  NoDup (keys (acc s)) /\ NoDup (keys (served s)) /\
+  (forall r p, In (r, p) (served s) -> In (r, p) (acc s)) /\
+  (forall p p' r, In (p, WServing r) (running s) -> In (p', WServing r) (running s) -> p = p') /\
+  (forall p r, In (p, WServing r) (running s) -> In (r, p) (acc s) /\ ~ In r (keys (served s))).
+Proof. exact worker_one_at_a_time. Qed.
+Print Assumptions C20_worker_one_at_a_time.
+
+(* The worker loop: accept only while serving nothing; finish / timeout concern the request served. *)
+Theorem C20_worker_loop : forall w e w' fr o, wstep w e = Some (w', fr, o) ->
+  match e with
+  | WEAccept r => w = WAccepting /\ w' = Some (WServing r) /\ fr = ST_BUSY /\ o = None
+  | WEFinish => exists r, w = WServing r /\ w' = Some WAccepting /\ fr = ST_IDLE /\ o = Some r
+  | WETimeout => exists r, w = WServing r /\ w' = None /\ fr = ST_STOPPED /\ o = None
+  end.
+Proof. exact wstep_shape. Qed.
+Print Assumptions C20_worker_loop.
+
+(* An exit notice is handled only for a process whose registration was handled earlier. *)
+Theorem C20_exit_after_registration : forall c tr1 tr2 p s, cfg_ok c ->
+  run c (init_state c) (tr1 ++ MasterDel p :: tr2) = Some s ->
+  exists tr0 b tr0' s0 r, tr1 = tr0 ++ MasterAdd b :: tr0' /\ run c (init_state c) tr0 = Some s0 /\
+    nth_error (batches s0) b = Some {| b_rem := r; b_fly := Some p |}.
+Proof. exact exit_after_registration. Qed.
+Print Assumptions C20_exit_after_registration.
+
+(* The bookkeeping of the PINNED code (registration sets refCount := len(childs), initial batch not
+   reserved) does not keep the bound: init 1, max 4, explicit trace [overshoot_trace], 6 live workers. *)
+Theorem C20_overshoot_refuted :
+  cfg_ok cfg14 /\
+  ~ (forall c tr s, cfg_ok c -> run_pinned c (init_pinned c) tr = Some s -> live s <= c_max c).
+Proof. exact overshoot_refuted. Qed.
+Print Assumptions C20_overshoot_refuted.
+
+(* non-vacuity *)
+Example C20_overshoot_witness :
+  option_map live (run_pinned cfg14 (init_pinned cfg14) overshoot_trace) = Some 6.
+Proof. vm_compute. reflexivity. Qed.
+Example C20_overshoot_repaired :
+  run cfg14 (init_state cfg14) overshoot_trace = None /\
+  option_map (fun s => (live s, reserved s)) (run cfg14 (init_state cfg14) (firstn 12 overshoot_trace)) = Some (4, 0).
+Proof. exact overshoot_repaired. Qed.
+(* a crash, a timeout and their replacement: init 2, max 3; ends quiescent with 2 live workers *)
+Example C20_example_faults :
+  option_map (fun s => (live s, refCount s, reserved s, exited s))
+    (run {| c_init := 2; c_max := 3; c_inc := 10 |} (init_state {| c_init := 2; c_max := 3; c_inc := 10 |})
+       [SpawnOne 0; MasterAdd 0; SpawnOne 0; MasterAdd 0; WAccept 1; MasterUpdate; WCrash 2; MasterDel 2;
+        WTimeout 1; MasterUpdate; SpawnOne 1; MasterAdd 1; MasterDel 1; SpawnOne 2; MasterAdd 2]%nat)
+  = Some (2, 2, 0, []).
+Proof. vm_compute. reflexivity. Qed.
